@@ -85,6 +85,8 @@ class ShardStats:
         self.failures = {}
         self.skipped = 0
         self.nt_extra = 0
+        self.case_errors = []  # exceptions raised by check code itself on single cases (first few, with the case)
+        self.n_case_errors = 0
 
     def record(self, case, classes, failures):
         self.evals += 1
@@ -123,6 +125,10 @@ class CaseWatchdog(BaseException):
     pass
 
 
+class Inconclusive(RuntimeError):
+    """a case that could not be decided (watchdog): always a harness error, never contained"""
+
+
 def _alarm(signum, frame):
     raise CaseWatchdog()
 
@@ -140,7 +146,7 @@ def checked(tgt, case):
     try:
         return tgt.check(case)
     except CaseWatchdog:
-        raise RuntimeError(f"case exceeded {CASE_WATCHDOG_S}s (inconclusive): {core.canon(case)[:300]}")
+        raise Inconclusive(f"case exceeded {CASE_WATCHDOG_S}s (inconclusive): {core.canon(case)[:300]}")
     except Exception as exc:  # noqa: BLE001
         in_repo, where = core.innermost_repo_frame(exc)
         if in_repo:
@@ -182,7 +188,16 @@ def run_shard(job):
             if time.time() > deadline:
                 stats.skipped += 1
                 return
-            classes, failures = checked(tgt, case)
+            try:
+                classes, failures = checked(tgt, case)
+            except Inconclusive:
+                raise
+            except Exception as exc:  # noqa: BLE001 - check code tripped over this case: contain it, go on with the others
+                stats.n_case_errors += 1
+                if len(stats.case_errors) < 2:
+                    tb = "".join(traceback.format_exception(type(exc), exc, exc.__traceback__))[-1500:]
+                    stats.case_errors.append(f"{tb}case: {core.canon(case)[:400]}")
+                return
             stats.record(case, classes, failures)
 
         if tgt.kind == "enum":
@@ -229,7 +244,12 @@ def run_shard(job):
                 )
                 @given(tgt.strategy(tier))
                 def t(case):
-                    classes, failures = checked(tgt, case)
+                    try:
+                        classes, failures = checked(tgt, case)
+                    except Inconclusive:
+                        raise
+                    except Exception:  # noqa: BLE001 - contained in collect mode too; not the signature being shrunk
+                        return
                     for sig, detail in failures:
                         if sig == want_sig:
                             last["case"] = case
@@ -250,6 +270,8 @@ def run_shard(job):
             samples=stats.samples,
             failures=stats.failures,
             skipped=stats.skipped,
+            case_errors=stats.case_errors,
+            n_case_errors=stats.n_case_errors,
         )
     except BaseException as exc:  # noqa: BLE001
         out["error"] = "".join(traceback.format_exception(type(exc), exc, exc.__traceback__))[-4000:]
@@ -387,6 +409,8 @@ def main(argv=None):
             if res["error"]:
                 errors.append(f"{res['target']}#{res['shard']}: {res['error']}")
                 continue
+            if res.get("n_case_errors"):
+                errors.append(f"case-error: {res['n_case_errors']} case(s) of {res['target']}#{res['shard']} raised inside the check code; first: {res['case_errors'][0]}")
             st = agg["stats"][res["target"]]
             st.evals += res["evals"]
             per_target_evals[res["target"]] += res["evals"]
@@ -516,8 +540,9 @@ def main(argv=None):
     for sig, n in known_hit.items():
         print(f"KNOWN-FINDING: property={pid} {known[sig]} (sig={sig}, {n} cases excluded)")
     # a missing required class next to real failures is usually their consequence (cases fail before they are
-    # classified), so violations win; with no violation a harness error makes the run inconclusive (exit 2)
-    hard = [e for e in errors if not e.startswith("required class")]
+    # classified), and so is check code tripping over single cases (a return value of an unexpected shape): violations
+    # win; with no violation either makes the run inconclusive (exit 2)
+    hard = [e for e in errors if not e.startswith(("required class", "case-error"))]
     for name, sig, n, detail, path in violations:
         print(f"  failure target={name} sig={sig} count={n} :: {detail[:300]}")
         if not hard:
